@@ -5,6 +5,7 @@ From Coq Require Import ZArith NArith Bool List.
 From PcoreV Require Import Model.Base Model.StringHash Proofs.StringHashProofs.
 From PcoreV Require Model.Coll Proofs.CollProofsKeyed Proofs.CollProofsEq Proofs.CollProofsInv Proofs.CollProofs.
 From PcoreV Require Model.Keys Model.CollKey Proofs.CollKeyProofs.
+From PcoreV Require Model.CollSeq Proofs.CollSeqProofs.
 Import ListNotations.
 
 (* The mutable string-keyed hash (model of hash/stringhash.go, with its index map and the capacity of its entries
@@ -66,8 +67,8 @@ Print Assumptions C09_delete_during_iteration_keeps_others.
 Example C09_iteration_values_depend_on_capacity :
   let h c := [ONewCap c; OPut 0 [97]%N 1; OPut 0 [98]%N 2; OPut 0 [99]%N 3;
               OIter 0 IEachPair [(ACompute [100]%N 5, false); (APut [99]%N 9, false)]; OGet 0 [99]%N] in
-  nth 4 (snd (run [] (h 4%nat))) RUnit = RIter [[97]%N; [98]%N; [99]%N] [1; 2; 9]%Z true /\
-  nth 4 (snd (run [] (h 3%nat))) RUnit = RIter [[97]%N; [98]%N; [99]%N] [1; 2; 3]%Z true /\
+  nth 4 (snd (run [] (h 4%nat))) RUnit = RIter [[97]%N; [98]%N; [99]%N] [VInt 1; VInt 2; VInt 9] true /\
+  nth 4 (snd (run [] (h 3%nat))) RUnit = RIter [[97]%N; [98]%N; [99]%N] [VInt 1; VInt 2; VInt 3] true /\
   nth 5 (snd (run [] (h 4%nat))) RUnit = RVal (Some (VInt 9)) /\ nth 5 (snd (run [] (h 3%nat))) RUnit = RVal (Some (VInt 9)).
 Proof. vm_compute. auto. Qed.
 
@@ -82,7 +83,7 @@ Example C09_iteration_nonvacuous :
   snd (run [] ops) =
     [RObj 0; RPut None false; RPut None false; RPut None false; RPut None false;
      RIter [[97]%N; [98]%N; [99]%N; [100]%N] [] true; RInt 0; RPut None false; RPut None false; RPut None false;
-     RIter [[97]%N; [98]%N; [99]%N] [1; 2; 3]%Z false; RPairs [([97]%N, 1%Z); ([99]%N, 3%Z)]].
+     RIter [[97]%N; [98]%N; [99]%N] [VInt 1; VInt 2; VInt 3] false; RPairs [([97]%N, VInt 1); ([99]%N, VInt 3)]].
 Proof. vm_compute. auto. Qed.
 
 Theorem C09_compute_producer_puts_same_key_refuted :
@@ -90,6 +91,54 @@ Theorem C09_compute_producer_puts_same_key_refuted :
     snd (run [] ops) = [RObj 0; RVal (Some (VInt 6)); RKeys [[97%N]; [97%N]]; RVal (Some (VInt 6)); RKeys [[97%N]]; RBool false].
 Proof. exact compute_producer_puts_same_key_refuted. Qed.
 Print Assumptions C09_compute_producer_puts_same_key_refuted.
+
+(* LOOKUPS FIND EXACTLY THE PRESENT KEYS, whatever value a key is associated with - the Go value nil included
+   (val = VNil | VInt z; `Put(k, nil)` declares k without a value).  For every history (any number of hashes, every
+   operation above) and every hash it leaves: the keys are pairwise different (Len = number of keys), and for every
+   key k: when k is among Keys, Get answers (v, true) with v the value of k's only entry, Includes true,
+   GetOrDefault v FOR EVERY DEFAULT (also when v is nil and the default is not), ComputeIfAbsent v without computing or
+   changing anything; when k is not among Keys, Get answers (nil, false), Includes false, GetOrDefault its default,
+   Delete nothing. *)
+Theorem C09_lookups_find_exactly_present_keys :
+  forall ops, ops_ok ops = true ->
+  forall i c, nth_error (fst (run [] ops)) i = Some c ->
+    NoDup (map fst (entries c)) /\
+    forall k,
+      (In k (map fst (entries c)) ->
+         exists v, In (k, v) (entries c) /\ get c k = RVal (Some v) /\ includes c k = true /\
+                   (forall d, get_or_default c k d = RVal (Some v)) /\
+                   (forall w, compute_if_absent c k w = (c, RVal (Some v))) /\
+                   compute_panic c k = (c, RVal (Some v))) /\
+      (~ In k (map fst (entries c)) ->
+         get c k = RVal None /\ includes c k = false /\
+         (forall d, get_or_default c k d = RVal (Some d)) /\
+         (frozen c = false -> delete c k = (c, RVal None))).
+Proof. exact lookups_find_exactly_present_keys. Qed.
+Print Assumptions C09_lookups_find_exactly_present_keys.
+
+(* the same of the abstract map: a lookup succeeds exactly for the keys of the map *)
+Theorem C09_abstract_lookup_iff_present :
+  forall es k, ((exists v, s_lookup es k = Some v) <-> In k (map fst es)) /\
+               (s_lookup es k = None <-> ~ In k (map fst es)).
+Proof. intros es k. split; [apply s_lookup_present|apply s_lookup_absent]. Qed.
+Print Assumptions C09_abstract_lookup_iff_present.
+
+(* Non-vacuity: b is put with the value nil.  It is present for every lookup - Get (nil, true), GetOrDefault nil and
+   not 7, Includes, Len 2, ComputeIfAbsent does not compute - also in a copy, a merge and after a re-Put of a with
+   nil; a Go caller of GetOrDefault / ComputeIfAbsent / Delete sees a bare nil there (go_view). *)
+Example C09_nil_value_nonvacuous :
+  let ops := [ONew; OPut 0 [97]%N (VInt 1); OPut 0 [98]%N VNil; OGet 0 [98]%N; OGetOrDefault 0 [98]%N (VInt 7);
+              OIncludes 0 [98]%N; OLen 0; OCompute 0 [98]%N (VInt 5); OPairs 0; OCopy 0; OGetOrDefault 1 [98]%N (VInt 7);
+              OPut 0 [97]%N VNil; OMerge 1 0; OGetOrDefault 2 [97]%N (VInt 7); OGetOrDefault 2 [99]%N (VInt 7);
+              ODelete 0 [98]%N; OGet 0 [98]%N; OEquals 1 2] in
+  ops_ok ops = true /\ ops_plain ops = true /\
+  snd (run [] ops) =
+    [RObj 0; RPut None false; RPut None false; RVal (Some VNil); RVal (Some VNil);
+     RBool true; RInt 2; RVal (Some VNil); RPairs [([97]%N, VInt 1); ([98]%N, VNil)]; RObj 1; RVal (Some VNil);
+     RPut (Some (VInt 1)) true; RObj 2; RVal (Some VNil); RVal (Some (VInt 7));
+     RVal (Some VNil); RVal None; RBool false] /\
+  go_view (OGetOrDefault 0 [98]%N (VInt 7)) (RVal (Some VNil)) = RVal None.
+Proof. vm_compute. auto. Qed.
 
 (* ... in particular no operation ever hits a Go runtime fault (index out of range). *)
 Theorem C09_stringhash_never_faults :
@@ -142,9 +191,9 @@ Print Assumptions C09_stringhash_invariant.
 Example C09_nonvacuous :
   snd (run [] [ONew; OPut 0 [97]%N 1; OPut 0 [98]%N 2; OPut 0 [99]%N 3; ODelete 0 [97]%N;
                OGet 0 [99]%N; OKeys 0; OFreeze 0; OPut 0 [100]%N 4; OCopy 0; OMerge 1 0; OPairs 2])
-  = [RObj 0; RPut None false; RPut None false; RPut None false; RVal (Some 1);
-     RVal (Some 3); RKeys [[98]%N; [99]%N]; RUnit; RFrozen; RObj 1; RObj 2;
-     RPairs [([98]%N, 2); ([99]%N, 3)]].
+  = [RObj 0; RPut None false; RPut None false; RPut None false; RVal (Some (VInt 1));
+     RVal (Some (VInt 3)); RKeys [[98]%N; [99]%N]; RUnit; RFrozen; RObj 1; RObj 2;
+     RPairs [([98]%N, VInt 2); ([99]%N, VInt 3)]].
 Proof. vm_compute. reflexivity. Qed.
 
 (* ... and one with the three kinds of mapping function: a panic leaves the hash as it was (the key can still be
@@ -156,8 +205,8 @@ Example C09_compute_nonvacuous :
   snd (run [] [ONew; OPut 0 [97]%N 1; OComputePanic 0 [98]%N; OIncludes 0 [98]%N; OLen 0;
                OComputePut 0 [98]%N 2 [99]%N 3; OPairs 0; OGet 0 [98]%N; ODelete 0 [99]%N; OGet 0 [98]%N;
                OComputePanic 0 [97]%N])
-  = [RObj 0; RPut None false; RPanic; RBool false; RInt 1; RVal (Some 2);
-     RPairs [([97]%N, 1); ([99]%N, 3); ([98]%N, 2)]; RVal (Some 2); RVal (Some 3); RVal (Some 2); RVal (Some 1)].
+  = [RObj 0; RPut None false; RPanic; RBool false; RInt 1; RVal (Some (VInt 2));
+     RPairs [([97]%N, VInt 1); ([99]%N, VInt 3); ([98]%N, VInt 2)]; RVal (Some (VInt 2)); RVal (Some (VInt 3)); RVal (Some (VInt 2)); RVal (Some (VInt 1))].
 Proof. vm_compute. auto. Qed.
 
 (* ================================================================================================== *)
@@ -438,3 +487,86 @@ Example C09_key_nonvacuous :
    RVal (PHash [])].
 Proof. vm_compute. repeat split; reflexivity. Qed.
 End CollHalf.
+
+(* ================================================================================================== *)
+(* The Array as a sequence of ARBITRARY values (Model/CollSeq.v).  The universe of Model/Coll.v holds only values
+   that can be hash keys and are equal to themselves.  An element of an array need be neither: an instance of an Object
+   type, a Sensitive, a TypedName, a Deferred has no hash key (keyless = true: px.ToKey panics), NaN and a Sensitive are
+   equal to nothing.  Equals is defined for all of them, and the sequence operations use nothing else. *)
+Module SeqHalf.
+Import CollSeq CollSeqProofs.
+
+(* Equals on this universe: symmetric; reflexive exactly on the values that hold no never-equal value at any depth; a
+   never-equal value (NaN, Sensitive) is equal to nothing *)
+Theorem C09_seq_equals_symmetric : forall a b, aeq a b = aeq b a.
+Proof. exact aeq_sym. Qed.
+Print Assumptions C09_seq_equals_symmetric.
+
+Theorem C09_seq_equals_reflexive_iff : forall a, aeq a a = never_free a.
+Proof. exact aeq_refl_iff. Qed.
+Print Assumptions C09_seq_equals_reflexive_iff.
+
+Theorem C09_seq_never_equal : forall k i x, aeq (ENever k i) x = false /\ aeq x (ENever k i) = false.
+Proof. exact aeq_never. Qed.
+Print Assumptions C09_seq_never_equal.
+
+(* Deletion removes exactly the elements equal to a given value - for every array and every list of values, with or
+   without hash keys: what is left are the elements equal to none of them (in order: a filter) *)
+Theorem C09_delete_all_removes_exactly_equal_elements :
+  forall l xs e, In e (sdelete_all l xs) <-> In e l /\ forall x, In x xs -> aeq e x = false.
+Proof. exact delete_all_spec. Qed.
+Print Assumptions C09_delete_all_removes_exactly_equal_elements.
+
+(* the companion relations: DeleteAll([x]) = Delete(x), DeleteAll(x :: xs) = DeleteAll(xs) after Delete(x),
+   DeleteAll([]) = the array *)
+Theorem C09_delete_all_of_one_is_delete : forall l x, sdelete_all l [x] = sdelete l x.
+Proof. exact delete_all_single. Qed.
+Print Assumptions C09_delete_all_of_one_is_delete.
+
+Theorem C09_delete_all_is_delete_in_turn :
+  forall l x xs, sdelete_all l (x :: xs) = sdelete_all (sdelete l x) xs.
+Proof. exact delete_all_cons. Qed.
+Print Assumptions C09_delete_all_is_delete_in_turn.
+
+Theorem C09_delete_all_of_nothing : forall l, sdelete_all l [] = l.
+Proof. exact delete_all_nil. Qed.
+Print Assumptions C09_delete_all_of_nothing.
+
+(* a never-equal element (NaN, a Sensitive) is never removed, and deleting it removes nothing; a list that names no
+   equal of any element removes nothing *)
+Theorem C09_never_equal_elements_stay :
+  forall l xs k i, (In (ENever k i) l -> In (ENever k i) (sdelete_all l xs)) /\ sdelete l (ENever k i) = l.
+Proof. intros l xs k i. split; [apply delete_all_keeps_never|apply delete_keeps_length_never]. Qed.
+Print Assumptions C09_never_equal_elements_stay.
+
+Theorem C09_delete_all_of_unequal_values_keeps_all :
+  forall l xs, (forall e x, In e l -> In x xs -> aeq e x = false) -> sdelete_all l xs = l.
+Proof. exact delete_all_none. Qed.
+Print Assumptions C09_delete_all_of_unequal_values_keeps_all.
+
+(* in every pool of every history: Delete / DeleteAll on an array receiver never fail and are these functions, and
+   DeleteAll with a one element array is the Delete of that element *)
+Theorem C09_seq_delete_total_in_histories :
+  forall ops pool r x l e, pool = spool_after [] ops -> arr_of pool r = Some l -> nth_error pool x = Some e ->
+    sstep pool (SDelete r x) = OV (EArr (sdelete l e)) /\
+    (forall xs, arr_of pool x = Some xs -> sstep pool (SDeleteAll r x) = OV (EArr (sdelete_all l xs))).
+Proof. intros ops pool r x l e _. apply step_delete_total. Qed.
+Print Assumptions C09_seq_delete_total_in_histories.
+
+Theorem C09_seq_delete_all_single_in_histories :
+  forall ops pool r x y e, pool = spool_after [] ops ->
+    nth_error pool x = Some (EArr [e]) -> nth_error pool y = Some e ->
+    sstep pool (SDeleteAll r x) = sstep pool (SDelete r y).
+Proof. intros ops pool r x y e _. apply step_delete_all_single. Qed.
+Print Assumptions C09_seq_delete_all_single_in_histories.
+
+(* Non-vacuity: [1, obj, NaN, 2, 1] with obj an instance of an Object type (no hash key): DeleteAll([1]) = Delete(1) =
+   [obj, NaN, 2]; DeleteAll([NaN, obj']) with obj' an equal instance removes obj and keeps NaN. *)
+Example C09_seq_nonvacuous :
+  let one := EAtom false 1 in let two := EAtom false 2 in let obj := EAtom true 20 in let nan := ENever false 1 in
+  srun [SLit (EArr [one; obj; nan; two; one]); SLit one; SLit (EArr [one]); SDelete 0 1; SDeleteAll 0 2;
+        SLit (EArr [nan; obj]); SDeleteAll 0 5; SAnyEq 0 1; SEquals 0 0; SLen 6]
+  = [OV (EArr [one; obj; nan; two; one]); OV one; OV (EArr [one]); OV (EArr [obj; nan; two]); OV (EArr [obj; nan; two]);
+     OV (EArr [nan; obj]); OV (EArr [one; nan; two; one]); OB true; OB false; ON 4%Z].
+Proof. vm_compute. reflexivity. Qed.
+End SeqHalf.
